@@ -371,10 +371,6 @@ func (this *partition) updateValue(notificationId uuid.UUID, id uuid.UUID, value
 		this.notificator.Notify(notificationId, err, false)
 		return nil
 	}
-	if err := this.index.Remove(id); err != nil {
-		this.notificator.Notify(notificationId, err, false)
-		return nil
-	}
 	if metadata == nil {
 		metadata = make(index.Metadata)
 	}
@@ -382,6 +378,15 @@ func (this *partition) updateValue(notificationId uuid.UUID, id uuid.UUID, value
 		if _, exists := metadata[k]; !exists {
 			metadata[k] = v
 		}
+	}
+	// Refuse what Insert would refuse before the stored item is removed
+	if err := metadata.Validate(); err != nil {
+		this.notificator.Notify(notificationId, err, false)
+		return nil
+	}
+	if err := this.index.Remove(id); err != nil {
+		this.notificator.Notify(notificationId, err, false)
+		return nil
 	}
 	err = this.index.Insert(id, value, metadata, vertex.Level())
 	this.notificator.Notify(notificationId, err, false)
@@ -421,10 +426,6 @@ func (this *partition) batchUpdateValue(notificationId uuid.UUID, items []*pb.Ba
 			errors[id] = err
 			continue
 		}
-		if err := this.index.Remove(id); err != nil {
-			errors[id] = err
-			continue
-		}
 		metadata := item.GetMetadata()
 		if metadata == nil {
 			metadata = make(map[string]string)
@@ -433,6 +434,15 @@ func (this *partition) batchUpdateValue(notificationId uuid.UUID, items []*pb.Ba
 			if _, exists := metadata[k]; !exists {
 				metadata[k] = v
 			}
+		}
+		// Refuse what Insert would refuse before the stored item is removed
+		if err := index.Metadata(metadata).Validate(); err != nil {
+			errors[id] = err
+			continue
+		}
+		if err := this.index.Remove(id); err != nil {
+			errors[id] = err
+			continue
 		}
 		if err := this.index.Insert(id, item.GetValue(), metadata, vertex.Level()); err != nil {
 			errors[id] = err
